@@ -26,6 +26,8 @@ def showSys : Sys → String
   | .fsync ok => s!"fsync:{if ok then 1 else 0}"
   | .fdatasync ok => s!"fdatasync:{if ok then 1 else 0}"
   | .ftruncate n => s!"ftruncate:{n}"
+  | .create => "create"
+  | .dirsync => "dirsync"
 
 def showJRes : JRes → String
   | .ok => "ok" | .io => "io" | .poisoned => "poisoned"
